@@ -137,7 +137,8 @@ def prepare_sched_binary(ctx):
 class Sched:
     """K2/monitors: real code under the cooperative scheduler; a failing schedule is the replay"""
     kind = "K2"
-    def __init__(self, scenario, quick, thorough, exhaustive_limit=0, label=None):
+    def __init__(self, scenario, quick, thorough, exhaustive_limit=0, label=None, conformance=None, traces=(150, 3000)):
+        self.conformance, self.ntraces = conformance, traces   # K2: Lean trace-conformance suite for this scenario
         self.scenario, self.quick, self.thorough, self.exh = scenario, quick, thorough, exhaustive_limit
         self.name = label or ("sched-" + scenario)
     def _run(self, binp, args):
@@ -171,6 +172,9 @@ class Sched:
                     else:
                         out["traces_validated"] += 1
         batches = [["-seed", str(ctx.seed), "-runs", str(n)]]
+        exported = []
+        if self.conformance:
+            batches[0] += ["-traces", str(self.ntraces[0] if ctx.tier == "quick" else self.ntraces[1])]
         if self.exh and (ctx.tier == "thorough" or self.exh <= 3000):
             batches.append(["-exhaustive", "-seed", str(ctx.seed), "-limit", str(self.exh if ctx.tier == "quick" else self.exh * 20)])
         for args in batches:
@@ -179,6 +183,8 @@ class Sched:
                     out["evaluations"] += rec["runs"]; out["distinct_nontrivial"] += rec["distinct_schedules"]
                     out["stats"].setdefault("batches", []).append(rec)
                     out["traces_validated"] += rec["runs"] - rec["failing"]
+                elif rec.get("trace_export"):
+                    exported.append(rec)
                 elif rec.get("sample"):
                     if len(out["samples"]) < 2:
                         out["samples"].append({"config": rec["config"], "schedule": rec["choices"][:60], "trace": (rec.get("trace") or [])[:40]})
@@ -186,6 +192,30 @@ class Sched:
                     out["f_bad"].append({"component": self.name, "kind": "spec-violation", "scenario": self.scenario, "config": rec["config"],
                                          "schedule": rec["choices"], "problems": rec["problems"], "trace": (rec.get("trace") or [])[:400], "seed": ctx.seed,
                                          "signature": None})
+        if self.conformance and exported:
+            # K2: every atomic step of these real runs must be the step the Lean small-step model takes
+            wd = os.path.join(ctx.workdir, self.name + "-k2")
+            os.makedirs(wd, exist_ok=True)
+            cp, mp = os.path.join(wd, "traces.cases"), os.path.join(wd, "traces.model")
+            with open(cp, "w") as f:
+                for rec in exported:
+                    f.write("case %s %s\n" % (self.conformance, rec["config"]))
+                    for t in rec["trace"]: f.write(t + "\n")
+                    f.write("end\n")
+            run_driver(cp, mp)
+            cl, ml = read_lines(cp), read_lines(mp)
+            conforming = steps = 0
+            for (header, ops, (ms,)), rec in zip(split_cases(cl, ml), exported):
+                bad = next((i for i, m in enumerate(ms) if m.startswith("MISMATCH") or m.startswith("bad") or m.startswith("no-suite") or m.startswith("missing")), None)
+                steps += sum(1 for m in ms if m.startswith("ok"))
+                if bad is None:
+                    conforming += 1
+                elif len(out["k_bad"]) < 3:
+                    out["k_bad"].append({"component": self.name, "kind": "correspondence", "scenario": self.scenario, "config": rec["config"], "schedule": [],
+                                         "problems": ["trace step %d does not conform to the Lean small-step model: %s" % (bad, ms[bad].split("\t")[0])],
+                                         "trace": ops[:bad + 1][-60:], "seed": ctx.seed})
+            out["stats"]["k2_traces_checked"] = len(exported); out["stats"]["k2_traces_conforming"] = conforming; out["stats"]["k2_model_steps_matched"] = steps
+            out["k2_traces_conforming"] = conforming
         return out
     def replay(self, item, ctx, quiet=False):
         binp, _ = prepare_sched_binary(ctx)
